@@ -229,6 +229,7 @@ def progR3 : Bool → List (List POp) → List Op → R3
   | ran, pl, .subDec ids :: r => R3.app ⟨[], [], ids⟩ (progR3 ran pl r)
   | ran, pl, .addHandler _ _ _ :: r => progR3 ran pl r
   | ran, pl, .plugin ps :: r => progR3 ran (pl ++ [ps]) r
+  | ran, pl, .callerEdits :: r => progR3 ran pl r
   | false, pl, .run :: r => (pluginR3 pl).app (progR3 true pl r)
   | true, pl, .run :: r => progR3 true pl r
 
@@ -266,6 +267,7 @@ theorem exec_regs (s s' : St) (p : List Op) (h : exec s p = some s') :
         · cases hs
         · cases hs; simp [progR3, St.r3]
       case plugin ps => cases hs; simp [progR3, St.r3]
+      case callerEdits => cases hs; simp [progR3]
       case pubDec ids => cases hs; simp [progR3, St.r3, R3.app, List.append_assoc]
       case subDec ids => cases hs; simp [progR3, St.r3, R3.app, List.append_assoc]
       case run =>
@@ -291,6 +293,7 @@ theorem step_keeps_started (s s' : St) (o : Op) (h : step s o = some s') (x : HS
     · cases h
     · cases h; exact List.mem_append_left _ hx
   case plugin ps => cases h; exact hx
+  case callerEdits => cases h; exact hx
   case pubDec ids => cases h; exact hx
   case subDec ids => cases h; exact hx
   case run =>
@@ -312,6 +315,7 @@ theorem step_obs (s s' : St) (o : Op) (h : step s o = some s') :
     · cases h
     · cases h; simp
   case plugin ps => cases h; simp
+  case callerEdits => cases h; simp
   case pubDec ids => cases h; simp
   case subDec ids => cases h; simp
   case run => cases h; simp [(loadPlugins_r3 s).2.2.2.2]
@@ -403,6 +407,30 @@ theorem program_chain_trace (pre post : List Op) (s1 s : St) (x : HSt)
     exact List.mem_filterMap.mpr ⟨_, hmem, by simp⟩
   · refine hfz.2 b ?_
     simpa [hl.2.2.2.2] using hb
+
+/-- **the router's lists are value copies**: whatever the application does afterwards to the slices it passed to
+    `AddMiddleware(ms...)`, `handler.AddMiddleware(ms...)`, `AddPublisherDecorators(ds...)`, `AddSubscriberDecorators(ds...)`
+    – element assignment, `append` on spare capacity, handing them to a second router – is invisible to the router:
+    removing all such edits from a program changes neither its final state nor any observation -/
+theorem caller_edits_invisible (s : St) (p : List Op) :
+    exec s p = exec s (p.filter (· ≠ .callerEdits)) := by
+  induction p generalizing s with
+  | nil => rfl
+  | cons o rest ih =>
+    by_cases ho : o = .callerEdits
+    · subst ho
+      simp only [exec, step, List.filter, ne_eq, not_true_eq_false, decide_false]
+      exact ih s
+    · have : (o :: rest).filter (· ≠ .callerEdits) = o :: rest.filter (· ≠ .callerEdits) := by
+        simp [List.filter, ho]
+      rw [this]
+      simp only [exec]
+      cases step s o with
+      | none => rfl
+      | some s2 => exact ih s2
+
+example : (exec {} [.pubDec [1, 2], .callerEdits, .addHandler "a" true none, .subDec [3], .callerEdits, .run]).map (·.obs) =
+    some [[("a", [.sub 3 true, .handler, .pub 1, .pub 2, .published])]] := by decide
 
 /-- **plugins act on every handler added before Run**: when `Run` happens (no earlier `run` in the program), whatever
     the plugins added so far register is part of the registrations the handlers started by it get – appended, in plugin
